@@ -15,3 +15,10 @@ if bad:
     print("SELFTEST FAILED", json.dumps(bad[:5]))
     sys.exit(1)
 print("selftest ok: %d host-arithmetic events reproduced by the TLA+ IEEE module" % res["stats"]["checked"])
+
+# the elementary-function enclosures against 250-bit literals (generated once with mpmath; they test the oracle only)
+rc, log, dt = check.tlc(["-workers", "1", "-config", "SelfTest_Elementary.cfg", "SelfTest_Elementary.tla"], {"XMX": "3g"}, os.path.join(wd, "md_elem"), 600)
+if "No error has been found" not in log or "FAIL" in log:
+    print("SELFTEST FAILED (Elementary)\n" + log[-2000:])
+    sys.exit(1)
+print("selftest ok: enclosures of exp, expm1, sin, cos, sqrt, pi, ln 2, ln 10 contain the reference literals and are tight")
